@@ -122,6 +122,11 @@ variable [ParamArith V] (h : LawfulAmp α V) (hh : LawfulHalf α V) (hs : Lawful
 include h hh hs
 
 omit h hh hs in
+theorem phase_one_of_row (X Y ph cX cY : α) (r0 : 0 + X * cX + Y * cY = 1) (m0 : X = ph * X)
+    (m1 : Y = ph * Y) : ph = 1 := by
+  linear_combination (1 - ph) * r0 - cX * m0 - cY * m1
+
+omit h hh hs in
 theorem ctrl_two_phase (a b c d a' b' c' d' k : α)
     (e : controlledMat [[a', b'], [c', d']] =
       scale k (LMat.mul (controlledMat [[a, b], [c, d]]) (controlledMat [[a, b], [c, d]]))) :
@@ -155,12 +160,7 @@ theorem cu2_phase_one (p l : V)
   simp only [List.cons.injEq, and_true] at hph hu2
   obtain ⟨⟨m00, m01⟩, -⟩ := hph
   obtain ⟨⟨r0, -⟩, -⟩ := hu2
-  generalize (u2Phase p l : α) = ph at m00 m01 ⊢
-  have key : (1 - ph) * 1 = 0 := by
-    rw [← r0]
-    linear_combination (Amp.conj V (0 + Amp.hsqrt2 V * Amp.hsqrt2 V + -Amp.polar (Amp.hsqrt2 V) l * Amp.polar (Amp.hsqrt2 V) p)) * m00 +
-      (Amp.conj V (0 + Amp.hsqrt2 V * -Amp.polar (Amp.hsqrt2 V) l + -Amp.polar (Amp.hsqrt2 V) l * Amp.polar (Amp.hsqrt2 V) (Amp.padd α p l))) * m01
-  linear_combination -key
+  exact phase_one_of_row _ _ _ _ _ r0 m00 m01
 
 end cu2
 end Q1t.Proofs.Square
